@@ -114,6 +114,7 @@ func (m *zzBoxes) Get(name string) (pipservices.Sandbox, error) {
 // and the surrounding scope is failed only by a failing handler.
 func ZZVerifC16Try() {
 	nd.Schedule(nd.Param("P", 1))
+	nd.Races()
 	log := &zzLog{}
 	var r pipservices.Runner
 	boxes := &zzBoxes{self: &zzSelf{log: log, runner: func() pipservices.Runner { return r }}}
